@@ -91,6 +91,43 @@ def model_int(model, term, signed=False):
     raise Inconclusive('model value not concrete: %s' % v)
 
 
+
+_ABS_UF = {}
+
+
+def abstract_ops(terms, kinds=('bvudiv', 'bvurem')):
+    """Sound over-approximation: every application of the named bit-vector operators is replaced by an uninterpreted
+    function of the same arguments. `unsat` for the abstracted query implies `unsat` for the original one (the real operator
+    is one interpretation); a `sat` answer says nothing and the caller falls back to the concrete query."""
+    ops = {'bvudiv': (z3.Z3_OP_BUDIV, z3.Z3_OP_BUDIV_I), 'bvurem': (z3.Z3_OP_BUREM, z3.Z3_OP_BUREM_I),
+           'bvmul': (z3.Z3_OP_BMUL,), 'bv2int': (z3.Z3_OP_BV2INT,), 'int2bv': (z3.Z3_OP_INT2BV,)}
+    want = {}
+    for k in kinds:
+        for o in ops[k]:
+            want[o] = k
+    cache = {}
+
+    def walk(t):
+        key = t.get_id()
+        if key in cache:
+            return cache[key]
+        if not z3.is_app(t) or t.num_args() == 0:
+            cache[key] = t
+            return t
+        args = [walk(a) for a in t.children()]
+        k = t.decl().kind()
+        if k in want and len(args) in (1, 2):
+            sig = (want[k],) + tuple(a.sort().sexpr() for a in args) + (t.sort().sexpr(),)
+            uf = _ABS_UF.get(sig)
+            if uf is None:
+                uf = _ABS_UF[sig] = z3.Function('abs_%s_%d' % (want[k], len(_ABS_UF)), *([a.sort() for a in args] + [t.sort()]))
+            r = uf(*args)
+        else:
+            r = t.decl()(*args) if any(a.get_id() != b.get_id() for a, b in zip(args, t.children())) else t
+        cache[key] = r
+        return r
+    return [walk(t) for t in terms]
+
 class Check:
     def __init__(self, pid, tier, seed):
         self.pid = pid
@@ -334,7 +371,7 @@ class Check:
         self.solver_s += dt
         return verdict[0], verdict[1], dt
 
-    def obligation(self, name, pc, claim, inputs=None, replay=None, bound='', describe=None, kind='FUNC', split=None):
+    def obligation(self, name, pc, claim, inputs=None, replay=None, bound='', describe=None, kind='FUNC', split=None, abstract=None):
         """pc: list of z3 Bool; claim: z3 Bool that must hold under pc.
         inputs: {name: z3 term} (for known-finding regions and counterexample printing).
         replay(model) -> (reproduced: bool, request dict, observation) ; required for reporting."""
@@ -347,7 +384,27 @@ class Check:
             rt = eval(e['region'], {'z3': z3, '__builtins__': {}}, dict(inputs))
             region_terms.append((e, rt))
         excl = [z3.Not(rt) for _, rt in region_terms]
-        if split is not None:
+        res = None
+        if abstract:
+            # normalise with one rewriter first (the explored terms are partly simplified already), then abstract
+            t0a = time.time()
+            cs = abstract_ops([z3.simplify(c) for c in list(pc) + [neg] + excl + list(G.facts)], abstract)
+            sa = z3.Solver()
+            sa.set('timeout', min(self.timeout_ms, 20000))
+            sa.add(cs)
+            ra = sa.check()
+            self.queries += 1
+            dt = time.time() - t0a
+            self.solver_s += dt
+            res, model = ('unsat', None) if ra == z3.unsat else (None, None)
+            if res == 'unsat':
+                self.decided_by['z3 (abstracted)'] = self.decided_by.get('z3 (abstracted)', 0) + 1
+                rec['abstraction'] = 'decided with %s left uninterpreted (congruence only)' % ', '.join(abstract)
+            else:
+                res = None
+        if res is not None:
+            pass
+        elif split is not None:
             res, model, dt = self.solve_split(list(pc) + [neg] + excl, split)
             rec['case_split'] = '%d cases over %s' % (len(split[1]), split[0])
         else:
